@@ -13,7 +13,8 @@
      regions p            : ranges (offset, length) of the non-shared nodes followed by the free gaps
    The theorems quantify over ALL histories: any order, valid and invalid sizes, repeated values, parts of wider values. *)
 From Coq Require Import ZArith List Bool.
-From Verif Require Import ConstPool.ConstPoolModel ConstPool.ConstPoolSpec ConstPool.ConstPoolProofs.
+From Verif Require Import ConstPool.ConstPoolModel ConstPool.ConstPoolSpec ConstPool.ConstPoolInv ConstPool.ConstPoolProofs
+  ConstPool.ConstPoolJudge ConstPool.ConstPoolJudgeProofs ConstPool.ConstPoolTreeBridge ConstPool.ConstPoolPartition.
 Import ListNotations.
 Local Open Scope Z_scope.
 
@@ -100,6 +101,18 @@ Theorem C19_embedded_aligned : forall cmds k d s off base,
 Proof. exact embedded_aligned_thm. Qed.
 Print Assumptions C19_embedded_aligned.
 
+(* the model of embed_const_pool's layout (embed_layout: align to alignment(), bind the label, size() bytes of fill()):
+   the label lands on the first multiple of alignment() at or after the current offset, every constant is then at a
+   section offset aligned to its own size, inside the section, and the bytes there are the constant *)
+Theorem C19_embed_layout : forall cmds pre, wf_cmds cmds -> guard cmds -> 0 <= pre ->
+  let p := final cmds in
+  let lab := fst (embed_layout pre p) in
+  pre <= lab < pre + Z.max (palign p) 1 /\ lab mod Z.max (palign p) 1 = 0 /\ snd (embed_layout pre p) = lab + psize p /\
+  (forall k d s off, added cmds k d s off ->
+     (lab + off) mod s = 0 /\ lab + off + s <= snd (embed_layout pre p) /\ slice (cp_fill p) off s = slice d 0 s).
+Proof. exact embed_layout_thm. Qed.
+Print Assumptions C19_embed_layout.
+
 (* sizes 0, non-powers of two and sizes above 64 are refused and leave ANY pool state unchanged *)
 Theorem C19_invalid_size_refused : forall p d s,
   ~ valid_size s -> cp_add p d s = (p, InvalidArgument).
@@ -138,6 +151,52 @@ Theorem C19_gap_quirk_witness :
 Proof. exact gap_quirk_witness. Qed.
 Print Assumptions C19_gap_quirk_witness.
 
+(* ConstPool_addGap tiles the WHOLE alignment padding: when an add grows the pool (from any state satisfying the
+   representation invariant), every new byte belongs to the constant just placed or to a free gap registered in the new
+   state -- nothing of a freshly appended area is leaked (gaps are only ever lost by the pop-several quirk of 7.12) *)
+Theorem C19_fresh_area_covered : forall p d s p' off x,
+  Inv p -> wf_cmd d s -> cp_add p d s = (p', Ok off) -> psize p <= x < psize p' ->
+  off <= x < off + s \/ exists i g, In g (nth i (gaps p') []) /\ fst g <= x < fst g + snd g.
+Proof. exact fresh_area_covered_thm. Qed.
+Print Assumptions C19_fresh_area_covered.
+
+(* exact accounting of every byte after ANY history: the stored regions, the free gaps and the gaps LOST by the
+   pop-several quirk (`lost cmds`, a ghost computed from the history in ConstPoolPartition.v: for every add that takes the
+   gap path, all gaps it popped from its class stack except the one it used) are pairwise disjoint and together cover
+   [0, size()); if the quirk never fired (lost = []) stored regions and free gaps alone tile the pool *)
+Theorem C19_partition : forall cmds, wf_cmds cmds -> guard cmds ->
+  let p := final cmds in
+  pairwise disj (regions p ++ lost cmds) /\
+  (forall x, 0 <= x < psize p -> exists r, In r (regions p ++ lost cmds) /\ fst r <= x < fst r + snd r) /\
+  Forall (fun r => 0 <= fst r /\ fst r + snd r <= psize p) (lost cmds) /\
+  (lost cmds = [] -> forall x, 0 <= x < psize p -> exists r, In r (regions p) /\ fst r <= x < fst r + snd r).
+Proof. exact partition_thm. Qed.
+Print Assumptions C19_partition.
+
+Theorem C19_partition_quirk_witness : lost ex_quirk = [(10, 2)].
+Proof. exact lost_quirk_witness. Qed.
+Print Assumptions C19_partition_quirk_witness.
+
+(* why every history theorem carries `guard`: a state satisfying the whole representation invariant that already holds
+   2^32 bytes. A fresh 8-byte constant is appended at offset 2^32 (returned as such) but its node stores the offset
+   truncated to 32 bits, so adding the same constant again returns 0: C19_stable and C19_dedup are FALSE beyond 4 GiB.
+   State-level witness (reaching such a state takes >= 2^26 adds; not exercised by the harness, not a recorded finding) *)
+Theorem C19_beyond_4GiB_refuted :
+  exists p d s off off', Inv p /\ wf_cmd d s /\ psize p = 4294967296 /\
+    snd (cp_add p d s) = Ok off /\ snd (cp_add (fst (cp_add p d s)) d s) = Ok off' /\ off <> off' /\
+    psize (fst (cp_add p d s)) = 4294967304.
+Proof. exact offset_truncation_refuted. Qed.
+Print Assumptions C19_beyond_4GiB_refuted.
+
+(* ... and the same happens in EVERY state of exactly 2^32 bytes that satisfies the invariant (so in every reachable one):
+   a new 8-byte constant that finds no free 8-byte gap is answered with 2^32, and asked again with 0 *)
+Theorem C19_beyond_4GiB_refuted_general : forall p d,
+  Inv p -> psize p = 4294967296 -> 8 <= Z.of_nat (length d) ->
+  tree_get (nth 3 (trees p) []) (slice d 0 8) = None -> nth 3 (gaps p) [] = [] ->
+  snd (cp_add p d 8) = Ok 4294967296 /\ snd (cp_add (fst (cp_add p d 8)) d 8) = Ok 0.
+Proof. exact offset_truncation_general. Qed.
+Print Assumptions C19_beyond_4GiB_refuted_general.
+
 (* the fuel parameters of the model's two fuelled loops (sub-constant levels, ConstPool_addGap) never cut a loop short:
    more fuel gives the same result, i.e. the model computes what the unbounded C++ loops compute *)
 Theorem C19_model_loops_total : forall extra : nat,
@@ -146,3 +205,39 @@ Theorem C19_model_loops_total : forall extra : nat,
   (forall gs off sz, add_gap_f (Z.to_nat sz + extra)%nat gs off sz = add_gap gs off sz).
 Proof. exact model_loops_total. Qed.
 Print Assumptions C19_model_loops_total.
+
+(* the executable judge applied by the check to the ANSWERS OF THE IMPLEMENTATION (coq/theories/ConstPool/ConstPoolJudge.v,
+   extracted): whenever it accepts an observed transcript (commands, answers, image, size(), alignment()), the clauses of
+   the property hold of that transcript: aligned in-bounds offsets, errors only for invalid sizes, equal constants at equal
+   offsets, image = constant at every offset and zero elsewhere, alignment() / min_item_size() = sizes that were added (or
+   nothing was), size() a multiple of min_item_size() *)
+Theorem C19_judge_sound : forall tr img sz al mn, judge tr img sz al mn = true ->
+  (forall d s off, In (d, s, Ok off) tr ->
+     valid_size s /\ 0 <= off /\ off mod s = 0 /\ off + s <= sz /\ s <= al /\ al mod s = 0 /\ slice img off s = slice d 0 s) /\
+  (forall d s, In (d, s, InvalidArgument) tr -> ~ valid_size s) /\
+  (forall d1 d2 s o1 o2, In (d1, s, Ok o1) tr -> In (d2, s, Ok o2) tr -> slice d1 0 s = slice d2 0 s -> o1 = o2) /\
+  Z.of_nat (length img) = sz /\
+  (forall x, 0 <= x < sz -> (forall d s off, In (d, s, Ok off) tr -> ~ (off <= x < off + s)) -> nth (Z.to_nat x) img 0 = 0) /\
+  ((exists d off, In (d, al, Ok off) tr) \/ (al = 0 /\ forall d s off, ~ In (d, s, Ok off) tr)) /\
+  (((exists d off, In (d, mn, Ok off) tr) /\ sz mod mn = 0 /\ 0 < mn <= al) \/ (mn = 0 /\ forall d s off, ~ In (d, s, Ok off) tr)).
+Proof. exact judge_sound. Qed.
+Print Assumptions C19_judge_sound.
+
+(* ... and it never rejects what the model answers (so a rejection of the implementation's transcript is a real difference) *)
+Theorem C19_judge_accepts_model : forall cmds, wf_cmds cmds -> guard cmds ->
+  judge (transcript cmds (results cmds)) (cp_fill (final cmds)) (psize (final cmds)) (palign (final cmds)) (pmin (final cmds)) = true.
+Proof. exact judge_model. Qed.
+Print Assumptions C19_judge_accepts_model.
+
+(* link to C18: the key-sorted node list that models each per-size tree is exactly the abstract set (`ts_ids`, kept by
+   sorted_insert / lookup) against which C18 verifies the red-black ArenaTree, under key bytes -> big-endian number
+   (memcmp order = numeric order for equal-length byte strings) and id := node offset. Unbounded; C18's statement that the
+   pointer-level tree realises that abstract set (C18_tree_set_and_rb_small_scope) is bounded (see design/C18.md) *)
+Theorem C19_tree_is_C18_abstract_set : forall L,
+  (forall n t, key_ok L (n_key n) -> Forall (fun m => key_ok L (n_key m)) t ->
+     map enc (ConstPoolModel.tree_insert n t) = TreeProofs.sorted_insert (map enc t) (be (n_key n)) (n_off n)) /\
+  (forall k t, key_ok L k -> Forall (fun m => key_ok L (n_key m)) t ->
+     TreeProofs.lookup (map enc t) (be k) = option_map n_off (ConstPoolModel.tree_get t k)) /\
+  (forall a b, key_ok L a -> key_ok L b -> key_lt a b = (be a <? be b) /\ (be a = be b -> a = b)).
+Proof. exact tree_bridge_thm. Qed.
+Print Assumptions C19_tree_is_C18_abstract_set.
